@@ -242,6 +242,20 @@ Definition valid_ed (c : cfg) (w : word) (ex : list nat) (k : ed) : Prop :=
   | ESwap i => k_swap c = true /\ S i < length w /\ ~ In i ex /\ ~ In (S i) ex
   end.
 
+(** the characters at unprotected positions, in order *)
+Fixpoint unprot_from (i : nat) (w : word) (ex : list nat) : list cluster :=
+  match w with
+  | [] => []
+  | c :: r => if mem i ex then unprot_from (S i) r ex else c :: unprot_from (S i) r ex
+  end.
+Definition unprot (w : word) (ex : list nat) : list cluster := unprot_from 0 w ex.
+
+(** [subseq a b]: [a] is obtained from [b] by deleting elements *)
+Inductive subseq : list cluster -> list cluster -> Prop :=
+| sub_nil : subseq [] []
+| sub_take : forall x a b, subseq a b -> subseq (x :: a) (x :: b)
+| sub_skip : forall x a b, subseq a b -> subseq a (x :: b).
+
 (** length of the new word [n'] from the length of the old one [n] *)
 Definition len_spec (k : ed) (n n' : nat) : Prop :=
   match k with
